@@ -194,6 +194,12 @@ def handle (j : Json) : Json :=
     let p := propsOfJson kvs
     let nm : Json := match kvs.get? "Name" with | some (.str s) => .arr #[.str "s", .str s] | _ => .null
     ok (.arr (runOps (domOf (tableOf kind) kvs) (tableOf kind) (baseClassOf kind) p nm ops.toList).toArray)
+  | .arr #[.str "elemc", .str cls, .obj kvs, .arr ops, nm0] =>
+    -- with the element's cached name given (a handle whose cached name is out of step with the graph)
+    match classOf? cls with
+    | none => err "no-class"
+    | some E =>
+      ok (.arr (runOps (domOf (tableOf E.kind) kvs) (tableOf E.kind) E (propsOfJson kvs) nm0 ops.toList).toArray)
   | .arr #[.str "elemc", .str cls, .obj kvs, .arr ops] =>
     match classOf? cls with
     | none => err "no-class"
